@@ -101,7 +101,18 @@ impl BlkCase {
             return c;
         }
         simk::activate(simk::SetupCfg::default());
-        let mut ring = Ring::config().with_submission_queue_size(len as u32).with_completion_queue_size(64).build().expect("ring");
+        // `kt=1`: a ring with a kernel thread (SQPOLL). The simulated thread is the deterministic one
+        // (`simk::SQPOLL_EAGER`, as in the `life` component): it takes what is published at every
+        // enter and is idle in between, so the model is the same.
+        let kt = get("kt") == Some(1);
+        simk::SQPOLL_EAGER.store(kt, std::sync::atomic::Ordering::SeqCst);
+        let cfg = Ring::config().with_submission_queue_size(len as u32).with_completion_queue_size(64);
+        let cfg = if kt { cfg.with_kernel_thread() } else { cfg };
+        let mut ring = cfg.build().expect("ring");
+        simk::SQPOLL_EAGER.store(false, std::sync::atomic::Ordering::SeqCst);
+        if kt {
+            c.feats.push("kernel-thread".into());
+        }
         let sq = ring.sq();
         c.rfd = simk::with_sim(|s| *s.rings.keys().next().unwrap());
         let raw = simk::with_ring(c.rfd, |r, _| r.fresh_fd());
@@ -524,7 +535,8 @@ impl Comp for BlkComp {
         }
         let len = *rng.pick(&[1u32, 1, 2, 2, 4]);
         let n = rng.range(2, 6);
-        format!("blk begin {id} len={len} n={n} steps={}", rng.range(30, 120))
+        let kt = if rng.chance(1, 5) { " kt=1" } else { "" };
+        format!("blk begin {id} len={len} n={n} steps={}{kt}", rng.range(30, 120))
     }
     fn begin(&mut self, header: &str) -> Box<dyn Case> {
         Box::new(BlkCase::new(header))
